@@ -206,6 +206,12 @@ impl Deadline {
     }
 }
 
+/// Number of open file descriptors of this process (feoxdb pins files that saw an
+/// indeterminate write for the life of the process).
+pub fn open_fds() -> usize {
+    std::fs::read_dir("/proc/self/fd").map(|d| d.count()).unwrap_or(0)
+}
+
 pub fn rss_mb() -> u64 {
     std::fs::read_to_string("/proc/self/statm")
         .ok()
